@@ -209,4 +209,5 @@ func genC20(r *rng, n int) {
 			out.emit(2004, fi(int(t)), vimg, fx(written), gimg, fi(e), fx(ref))
 		}
 	}
+	genC20SpecLen(r, n)
 }
